@@ -257,7 +257,7 @@ BODIES = ["", "# Title\n\ntext {{ a }} {{ k }}\n", "[link](http://e.org) [w](x:y
 FM_LINES += [
     "a: {2020-01-01: x}", "a: {1: 2, null: 3, true: 4, 1.5: 5}", "a: [{2020-01-01 10:00:00: x}]", "a: {? [1, 2] : x}",
     "a: {b: {2020-01-01: {c: !!binary aGk=}}}", "2020-01-01: x", "null: x", "1.5: x", "a: !!timestamp 2020-13-45",
-    "author: {2020-01-01: x}", "date: {1: 2}", "a: 123456789012345678901234567890", "a: -.inf", "a: .nan",
+    "author: {2020-01-01: x}", "date: {1: 2}", "a: &x [*x]", "a: &x {k: *x}", "a: &y [1, &z {b: *y}]", "a: 123456789012345678901234567890", "a: -.inf", "a: .nan",
 ]
 MYST_LINES = [ln for ln in FM_LINES if ln.startswith("  ")]
 TOP_LINES = [ln for ln in FM_LINES if not ln.startswith("  ") and ln != "myst:"]
@@ -354,6 +354,7 @@ def hostile_case(draw):
             "<", ">", "a\tb", "\ufeff", "a\u2028b", "inv://[x", "inv://[x#y", "wiki://[x", "x://[y", "http://[x", "http://[::1]:99999/",
             "inv:k:[#x", "project://[x", "path://[x", "x://a]b", "wiki://a:b:c/d", "inv:#%", "inv:%zz#x", "x:%", "http://a:b/"]))
         form = draw(st.sampled_from(["[t]({d})", "[]({d})", "[t](<{d}>)", "<{d}>", "![a]({d})", "[t]: {d}\n\n[t]",
+                                     "[t](project:{d})", "<project:{d}>", "[t](path:{d})", "<path:{d}>", "[t](inv:{d})", "<inv:a:b:c:d#{d}>",
                                      "```{{image}} {d}\n```", "```{{figure}} {d}\n```", "```{{include}} {d}\n```",
                                      "```{{literalinclude}} {d}\n```", "```{{download}} {d}\n```"]))
         text = form.format(d=dest) + "\n"
